@@ -19,6 +19,7 @@ import (
 	"cedarsim/simnet"
 
 	"github.com/bbockelm/cedar/client"
+	"github.com/bbockelm/cedar/message"
 	"github.com/bbockelm/cedar/security"
 	"github.com/bbockelm/cedar/stream"
 	"github.com/bbockelm/cedar/verifhook"
@@ -33,7 +34,14 @@ var addrs = []string{"10.0.0.2:9618", "10.0.0.3:9618"}
 var cmds = []int{60021, 60022, 60023}
 
 // which commands each server declares valid for a session
-var validAt = map[string][]int{"10.0.0.2:9618": {60021, 60022}, "10.0.0.3:9618": {60021, 60023}}
+var validAt = map[string][]int{"10.0.0.2:9618": {60021, 60022}, "10.0.0.3:9618": {60021, 60023},
+	spAddrs[0]: {60021, 60022}, spAddrs[1]: {60021, 60023}}
+
+// two daemons behind ONE shared-port endpoint: same host and port, told apart only by the
+// sock= parameter of the address (reached through client.Connect's shared-port path)
+const spFront = "10.0.0.4:9618"
+
+var spAddrs = []string{"<10.0.0.4:9618?sock=daemon_a>", "<10.0.0.4:9618?sock=daemon_b>"}
 
 const duration, lease = 600, 200 // seconds
 
@@ -96,7 +104,8 @@ func run(s *kernel.Sim, c *scen.Case) {
 	}
 	// servers
 	resumesSeen := map[string]int{} // sid -> resumption requests the servers accepted
-	for _, addr := range addrs {
+	stallNext := false              // the next accepted connection is served by a hung server
+	for _, addr := range append(append([]string(nil), addrs...), spFront) {
 		addr := addr
 		ln, err := net0.Listen(addr)
 		if err != nil {
@@ -113,9 +122,34 @@ func run(s *kernel.Sim, c *scen.Case) {
 				n++
 				s.Go(fmt.Sprintf("srvconn:%s:%d", addr, n), func() {
 					defer conn.Close()
+					if stallNext {
+						// a hung server: it takes the request and never answers
+						stallNext = false
+						s.Fault("server-silent")
+						buf := make([]byte, 4096)
+						for {
+							if _, err := conn.Read(buf); err != nil {
+								return
+							}
+						}
+					}
+					daemon := addr
+					if addr == spFront {
+						// the shared-port front: read the SHARED_PORT_CONNECT request, then the
+						// connection belongs to the named daemon
+						m := message.NewMessageFromStream(stream.NewStream(conn))
+						if _, err := m.GetInt32(bg); err != nil {
+							return
+						}
+						id, err := m.GetString(bg)
+						if err != nil {
+							return
+						}
+						daemon = "<" + spFront + "?sock=" + id + ">"
+					}
 					cfg := hs.Cfg(security.SecurityRequired, security.SecurityRequired, []security.AuthMethod{security.AuthClaimToBe}, hs.AES, security.NoCommand)
 					cfg.SessionDuration, cfg.SessionLease = duration, lease
-					cfg.PostAuthPolicy = func(u, p string, a, e bool) (string, []int) { return "", validAt[addr] }
+					cfg.PostAuthPolicy = func(u, p string, a, e bool) (string, []int) { return "", validAt[daemon] }
 					st := stream.NewStream(conn)
 					a := security.NewAuthenticator(cfg, st)
 					neg, err := a.ServerHandshake(bg)
@@ -146,7 +180,7 @@ func run(s *kernel.Sim, c *scen.Case) {
 			return false
 		}
 		for _, tg := range tags {
-			for _, ad := range addrs {
+			for _, ad := range append(append([]string(nil), addrs...), spFront, spAddrs[0], spAddrs[1]) {
 				for _, form := range []string{ad, "<" + ad + ">"} {
 					for _, cm := range cmds {
 						if e, ok := cache.LookupByCommand(tg, form, fmt.Sprint(cm)); ok && e.ID() == id {
@@ -176,11 +210,20 @@ func run(s *kernel.Sim, c *scen.Case) {
 				addr := kernel.Pick(t, "addr", addrs...)
 				cmd := kernel.Pick(t, "cmd", cmds...)
 				via := t.Choose("via", 2)
+				if via == 1 && t.Chance("shared-port", 1, 3) {
+					addr = kernel.Pick(t, "spaddr", spAddrs...)
+				}
 				if t.Chance("break", 1, 6) {
 					resetAt = 1 + t.Choose("break.k", 6)
 					s.Fault("connection-reset-armed")
 				}
-				broke := resetAt > 0
+				hctx, hcancel := bg, context.CancelFunc(func() {})
+				if resetAt == 0 && t.Chance("silent-server", 1, 8) {
+					// the server accepts and then says nothing; the caller's deadline ends the attempt
+					stallNext = true
+					hctx, hcancel = context.WithTimeout(bg, 20*time.Second)
+				}
+				broke := resetAt > 0 || stallNext
 				cfg := hs.Cfg(security.SecurityRequired, security.SecurityRequired, []security.AuthMethod{security.AuthClaimToBe}, hs.AES, cmd)
 				cfg.SessionCache = cache
 				cfg.SecurityTag = tag
@@ -200,19 +243,21 @@ func run(s *kernel.Sim, c *scen.Case) {
 						attach(ep)
 						st = stream.NewStream(ep)
 						a := security.NewAuthenticator(cfg, st)
-						neg, err = a.ClientHandshake(bg)
+						neg, err = a.ClientHandshake(hctx)
 						if err != nil {
 							ep.Close()
 						}
 					}
 				} else {
 					var cl *client.HTCondorClient
-					cl, err = client.ConnectAndAuthenticateWithConfig(bg, &client.ClientConfig{Address: addr, Security: cfg})
+					cl, err = client.ConnectAndAuthenticateWithConfig(hctx, &client.ClientConfig{Address: addr, Security: cfg})
 					if err == nil {
 						neg = cl.GetSecurityNegotiation()
 						st = cl.GetStream()
 					}
 				}
+				hcancel()
+				stallNext = false
 				key := addrKey(addr, via)
 				s.Note("step %d: handshake tag=%q addr=%s cmd=%d via=%d break=%v -> err=%v resumed=%v sid=%v", step, tag, key, cmd, via, broke, err, neg != nil && neg.SessionResumed, negSid(neg))
 				// a resumption that was attempted and failed (server forgot the session, or the
@@ -304,11 +349,31 @@ func run(s *kernel.Sim, c *scen.Case) {
 				}
 			case op >= 8: // explicit invalidation of a known session
 				if lastFull != nil && !lastFull.dropped {
+					held, _ := cache.Lookup(lastFull.id) // what a resumption already in flight holds
 					cache.Invalidate(lastFull.id)
 					lastFull.dropped = true
 					s.Probe("invalidated")
 					if !probeRoutes(lastFull, "invalidated") {
 						ok = false
+					}
+					if ok && held != nil && t.Chance("in-flight-restore", 1, 3) {
+						// a resumption that was in flight when the session was invalidated completes and
+						// files the entry again: it must come back without any of its old command routes
+						cache.Store(held)
+						for _, tg := range tags {
+							for _, ad := range append(append([]string(nil), addrs...), spAddrs[0], spAddrs[1]) {
+								for _, form := range []string{ad, "<" + ad + ">"} {
+									for _, cm := range cmds {
+										if e, found := cache.LookupByCommand(tg, form, fmt.Sprint(cm)); found && e.ID() == lastFull.id && ok {
+											s.Violate("route-to-dead-session", "LookupByCommand/restored-after-invalidation", fmt.Sprintf("session %s was invalidated; an entry with the same id filed again is reachable through its old route (%q,%q,%d)", lastFull.id, tg, form, cm))
+											ok = false
+										}
+									}
+								}
+							}
+						}
+						cache.Invalidate(lastFull.id)
+						s.Probe("restored-after-invalidation-has-no-routes")
 					}
 				}
 			}
